@@ -60,10 +60,20 @@ class Injector:
 
         def fit(solver, x, y, *a, **kw):
             i = len(inj.calls)
+            # arguments by name, however they were passed (positionally or by keyword), with the solver's own defaults
+            import inspect
+
+            try:
+                ba = inspect.signature(inj.orig).bind(solver, x, y, *a, **kw)
+                ba.apply_defaults()
+                g = ba.arguments
+            except TypeError:
+                g = dict(kw)  # a call the solver itself will reject
             inj.calls.append({
-                "data": fingerprint(x, y, kw.get("weights")), "tau": kw.get("taus", kw.get("tau_value")),
-                "lambda": kw.get("lambda_"), "intercept": kw.get("fit_intercept"),
-                "normalize": kw.get("normalize_weights", True), "kwargs": sorted(kw),
+                "data": fingerprint(x, y, g.get("weights")), "tau": g.get("taus", g.get("tau_value")),
+                "lambda": g.get("lambda_"), "intercept": g.get("fit_intercept"),
+                "normalize": g.get("normalize_weights", True), "regularize_intercept": g.get("regularize_intercept"),
+                "kwargs": sorted(kw), "positional": len(a),
             })
             if i == inj.k:
                 if inj.kind == "solverError":
@@ -77,7 +87,12 @@ class Injector:
                 elif inj.kind == "other":
                     raise FloatingPointError("scripted unrelated failure")
             if i == inj.substitute:
-                kw = dict(kw, normalize_weights=False)
+                kw = dict(g)
+                kw.pop("self", None)
+                kw.pop("x", None)
+                kw.pop("y", None)
+                kw["normalize_weights"] = False
+                return inj.orig(solver, x, y, **kw)
             return inj.orig(solver, x, y, *a, **kw)
 
         QRS.fit = fit
@@ -119,7 +134,7 @@ def explore(run, driver, budget):
         if "raises" in ref:
             continue
         nfits = len(base.calls)
-        fits = [[c["data"], int(round(float(np.asarray(c["tau"]).flatten()[0]) * 1000)), int(c["lambda"] or 0), bool(c["intercept"])]
+        fits = [[c["data"], (int(round(float(np.asarray(c["tau"]).flatten()[0]) * 1000)) if c["tau"] is not None else -1), int(c["lambda"] or 0), bool(c["intercept"])]
                 for c in base.calls]
         ks = list(range(nfits)) if budget != "quick" else sorted(set([0, 1, 2, nfits - 1] + rng.sample(range(nfits), min(3, nfits))))
         for k in ks:
@@ -164,7 +179,7 @@ def explore(run, driver, budget):
                     continue
                 if driver is not None:
                     m = driver.run([{"op": "retry.trace", "fits": fits, "k": k, "kind": kind}])[0]
-                    impl_calls = [[c["data"], int(round(float(np.asarray(c["tau"]).flatten()[0]) * 1000)), int(c["lambda"] or 0),
+                    impl_calls = [[c["data"], (int(round(float(np.asarray(c["tau"]).flatten()[0]) * 1000)) if c["tau"] is not None else -1), int(c["lambda"] or 0),
                                    bool(c["intercept"]), bool(c["normalize"])] for c in inj.calls]
                     if m["calls"] != impl_calls or m["completes"] is not True:
                         run.diff("solver call sequence: model vs implementation", input=case, impl=impl_calls, model=m)
